@@ -3,6 +3,7 @@
 #include "elem_gen.hpp"
 #include "ops_int.hpp"
 #include "ops_fp.hpp"
+#include "ops_logic.hpp"
 #include "known.hpp"
 
 using namespace xsv;
@@ -73,15 +74,31 @@ static int nvals(const OpDef& d)
     return n;
 }
 
-static void run_group(Context& cx, const Group& g, const Resolved& r)
+// `mine`: this worker owns the group's light part (lattice products, mask enumeration, rapidcheck);
+// the heavy enumerations are sliced over all workers.
+static void run_group(Context& cx, const Group& g, const Resolved& r, bool mine)
 {
     const OpDef& d = *g.d;
     const TypeId t = g.t;
     const bool thorough = cx.opt.thorough();
     const uint64_t seed = cx.opt.seed;
+    const int W = cx.opt.worker, NW = cx.opt.nworkers;
     auto imms = imm_values(d, t);
     const int bits = tbits(t);
+    bool all_masks = true;
+    for (int i = 0; i < d.arity; ++i)
+        all_masks = all_masks && d.kind[i] == K_MASK;
+    if (all_masks)
+    {
+        if (!mine)
+            return;
+        sweep_masks(cx, d, t, r, thorough ? 20 : 16);
+        if (cx.opt.budget > 0)
+            rc_group(cx, d, t, r, cx.opt.budget * 4);
+        return;
+    }
     // 1. lattice product, every lane position
+    if (mine)
     {
         auto L = value_lists(d, t, false);
         uint64_t total = 1;
@@ -94,8 +111,8 @@ static void run_group(Context& cx, const Group& g, const Resolved& r)
         sweep_product(cx, d, t, r, L, stride, mix64(seed), 64, imms);
         cx.st.cls("sweep_lattice_tuples", total / stride);
     }
-    // 2. exhaustive / strided full enumeration for small integer types
-    if (!tfloat(t) && bits <= 16)
+    // 2. exhaustive / strided full enumeration for small integer types (sliced over the workers when large)
+    if (!tfloat(t) && bits <= 16 && !(d.cheap_only && bits == 16))
     {
         const int nv = nvals(d);
         auto L = value_lists(d, t, true);
@@ -112,25 +129,34 @@ static void run_group(Context& cx, const Group& g, const Resolved& r)
             int rot = stride == 1 && total * imms.size() <= (1u << 16) ? 64 : (thorough ? 8 : (stride == 1 ? 2 : 1));
             if (nv >= 3)
                 rot = 1;
-            sweep_product(cx, d, t, r, L, stride, mix64(seed ^ 0x77), rot, imms);
-            cx.st.cls(stride == 1 ? "sweep_full_exhaustive_groups" : "sweep_full_strided_groups");
+            const bool heavy = total / stride * imms.size() > (1u << 18);
+            if (heavy)
+                sweep_product(cx, d, t, r, L, stride, mix64(seed ^ 0x77), rot, imms, W, NW);
+            else if (mine)
+                sweep_product(cx, d, t, r, L, stride, mix64(seed ^ 0x77), rot, imms);
+            if (mine)
+                cx.st.cls(stride == 1 ? "sweep_full_exhaustive_groups" : "sweep_full_strided_groups");
         }
     }
     // 2b. floating unary ops: dense boundary list; float32 additionally every k-th bit pattern (thorough: all)
     if (tfloat(t) && d.arity == 1 && d.kind[0] == K_VAL)
     {
-        auto U = fp_unary_list(t);
-        sweep_product(cx, d, t, r, { U }, 1, 0, 2, imms);
-        if (t == F32)
+        if (mine)
+        {
+            auto U = fp_unary_list(t);
+            sweep_product(cx, d, t, r, { U }, 1, 0, 2, imms);
+        }
+        if (t == F32 && !d.cheap_only)
         {
             const uint64_t stride = thorough ? 1 : 257;
             const uint64_t count = (1ull << 32) / stride;
-            sweep_range(cx, d, t, r, thorough ? 0 : mix64(seed) % stride, stride, count);
-            cx.st.cls(thorough ? "f32_unary_exhaustive_groups" : "f32_unary_strided_groups");
+            sweep_range(cx, d, t, r, thorough ? 0 : mix64(seed) % stride, stride, count, W, NW);
+            if (mine)
+                cx.st.cls(thorough ? "f32_unary_exhaustive_groups" : "f32_unary_strided_groups");
         }
     }
     // 3. rapidcheck
-    if (cx.opt.budget > 0)
+    if (mine && cx.opt.budget > 0)
         rc_group(cx, d, t, r, cx.opt.budget);
 }
 
@@ -147,6 +173,7 @@ int main(int argc, char** argv)
     }
     register_int_ops();
     register_fp_ops();
+    register_logic_ops();
     install_known(cx.opt);
     g_case_filter = sanitize;
 
@@ -203,23 +230,23 @@ int main(int argc, char** argv)
         for (size_t i = 0; i < groups.size(); ++i)
             groups[i] = tmp[i].second;
     }
-    size_t mine = 0;
+    size_t done = 0;
     for (size_t i = 0; i < groups.size(); ++i)
     {
-        if ((int)(i % cx.opt.nworkers) != cx.opt.worker)
-            continue;
+        const bool mine = (int)(i % cx.opt.nworkers) == cx.opt.worker;
         const Group& g = groups[i];
         Resolved r = resolve(targets[scalar ? "scalar" : g.d->family], *g.d, g.t);
         if (r.tg.empty())
         {
-            cx.st.notes.push_back("no target implements " + g.d->name + ":" + kTypeNames[g.t]);
+            if (mine)
+                cx.st.notes.push_back("no target implements " + g.d->name + ":" + kTypeNames[g.t]);
             continue;
         }
-        for (auto* tg : r.tg)
-            cx.st.per_target[tg->name]++;
-        run_group(cx, g, r);
-        ++mine;
-        if (mine % 8 == 0)
+        if (mine)
+            for (auto* tg : r.tg)
+                cx.st.per_target[tg->name]++;
+        run_group(cx, g, r, mine);
+        if (++done % 16 == 0)
             cx.write_out();
     }
     cx.st.classes["sanitized_divisors"] = g_sanitized;
